@@ -42,7 +42,10 @@ impl Record {
 
     pub fn alignment_end(&self) -> Option<Position> {
         self.alignment_start.and_then(|start| {
-            let end = usize::from(start) + self.alignment_span() - 1;
+            // A placed record without bases (e.g., an unmapped mate with a missing sequence) still
+            // occupies its start position: the span of a slice is never empty.
+            let span = self.alignment_span().max(1);
+            let end = usize::from(start) + span - 1;
             Position::new(end)
         })
     }
